@@ -121,3 +121,15 @@ Proof.
   destruct HF as (F1 & F2 & F3). repeat split; [exact F1| |exact F3].
   rewrite E2, F2. apply take_drop.
 Qed.
+
+(* whatever block the request names, the served payload is at most that block's size (the clause the suite-80 oracle
+   checks on every response to a request that names a size) *)
+Theorem served_within_size req b2 cached hm req' : serve_cached req b2 cached = (Ok hm, req') ->
+  exists r', response req' = Some r' /\ len (payload r') <= block_size b2.
+Proof.
+  unfold serve_cached. destruct (response req) as [rp|]; [|discriminate].
+  destruct (_ && _); [discriminate|]. destruct (block_encode _) as [v|e|s]; try discriminate.
+  intros [= <- <-]. eexists. split; [reflexivity|].
+  unfold set_option, set_payload, set_opts. cbn [payload].
+  unfold take, len. rewrite firstn_length. lia.
+Qed.
